@@ -53,7 +53,7 @@ theorem Tree.reserveOrSteal_ordered (ok : CfgOk c) (t : Tree) (cls n : Nat) (hcl
 def TreesReserved (c : Cfg) (H : Nat → Prop) (P : Nat → Nat) (R : Nat → Prop) (m : Mem) (i cls n : Nat)
     (r : Option (Bool × Nat × Nat)) (m' : Mem) : Prop :=
   match r with
-  | none => m = m'
+  | none => m = m' ∧ ∀ t : Tree, m.trees[i]? = some t → ¬ (t.free ≥ n ∧ t.reserved = false)
   | some (true, free, k) => k = cls ∧ n ≤ free ∧ free ≤ c.geom.treeFrames ∧
       UpperInv c H (gset P i (P i + free)) (fun j => R j ∨ j = i) m' ∧ SameAlloc m m' ∧ m'.slots = m.slots ∧
       m'.trees[i]? = some ⟨0, true, cls⟩
@@ -104,7 +104,7 @@ theorem trees_reserveOrSteal_spec (ok : CfgOk c) (inv : UpperInv c H P R m) (i c
       · simp only [gset_same]; omega
   · apply Runs.bind (Runs.upd_skip (Q := fun r m' => r = .error t ∧ m = m') (by simpa using ht) (h3 hc) ⟨rfl, rfl⟩)
     rintro _ _ ⟨rfl, rfl⟩
-    exact Runs.pure rfl
+    exact Runs.pure ⟨rfl, fun t' ht' => by rw [ht] at ht'; cases ht'; exact hc⟩
 
 /-- what `Locals::swap` did: the new reservation of tree `i` is installed; the previous one
     (if any) is in transit -/
@@ -236,9 +236,9 @@ theorem classLocals_runs (m : Mem) (k : Nat) (hk : k < 8) (Q : Option Nat → Me
 
 /-- **`LLFree::reserve_or_steal`**: reserve tree `i` for the caller's slot (returning the
     previous reservation to its tree) or take the frames from its counter, then allocate -/
-theorem reserveOrSteal_spec (ok : CfgOk c) (inv : UpperInv0 c H m) (i order cls loc : Nat) (hi : i < c.ntrees)
+theorem reserveOrSteal_spec' (ok : CfgOk c) (inv : UpperInv0 c H m) (i order cls loc : Nat) (hi : i < c.ntrees)
     (hcls : cls < 8) (hto : order ≤ c.geom.treeOrder) (rng : Nat × Nat) (hr : c.slotRange cls = some rng) (hpos : 0 < rng.2) :
-    Runs m (reserveOrSteal c i order cls loc) (fun r m' => UpperInv0 c H m' ∧ GetOutcome c m order none r m') := by
+    Runs m (reserveOrSteal c i order cls loc) (fun r m' => UpperInv0 c H m' ∧ GetOutcome c m order none r m' ∧ (∀ e, r = .error e → NoRoom c m i order)) := by
   have okg := ok.geom.toGeomOk
   have htr : i * c.g.treeRows * 64 / c.geom.treeFrames = i := by
     show i * c.geom.treeRows * 64 / _ = i
@@ -248,8 +248,8 @@ theorem reserveOrSteal_spec (ok : CfgOk c) (inv : UpperInv0 c H m) (i order cls 
   rintro r m1 hr1
   match r, hr1 with
   | none, hr1 =>
-    subst hr1
-    exact Runs.pure ⟨inv, rfl, SameAlloc.refl _⟩
+    obtain ⟨rfl, hwhy⟩ := hr1
+    exact Runs.pure ⟨inv, ⟨rfl, SameAlloc.refl _⟩, fun _ _ => Or.inl hwhy⟩
   | some (false, free, k), hr1 =>
     obtain ⟨hk, inv1, same1, hslots⟩ := hr1
     simp only
@@ -260,15 +260,16 @@ theorem reserveOrSteal_spec (ok : CfgOk c) (inv : UpperInv0 c H m) (i order cls 
       obtain ⟨hft, hal, hallowed, post, hfx, inv2⟩ := hlr
       simp only [Bool.false_eq_true, if_false]
       apply Runs.pure
-      exact ⟨inv2.congrP _ (gset_gset_cancel _ _), hk, hal, hallowed.congr same1, hfx,
-        AllocEffect.of_post same1 post (SameAlloc.refl _)⟩
+      exact ⟨inv2.congrP _ (gset_gset_cancel _ _), ⟨hk, hal, hallowed.congr same1, hfx,
+        AllocEffect.of_post same1 post (SameAlloc.refl _)⟩, fun e h => by cases h⟩
     | error e =>
-      obtain ⟨rfl, rfl⟩ := hlr
+      obtain ⟨rfl, rfl, hno⟩ := hlr
       simp only [Bool.false_eq_true, if_false]
       apply Runs.bind (tput_spec ok inv1 i (2 ^ order) hi (by simp))
       rintro _ m3 ⟨inv3, same3⟩
       apply Runs.pure
-      exact ⟨inv3.congrP _ (gset_gset_cancel _ _), rfl, same1.trans same3⟩
+      exact ⟨inv3.congrP _ (gset_gset_cancel _ _), ⟨rfl, same1.trans same3⟩,
+        fun _ _ => Or.inr (fun f h1 h2 h3 => hno rfl f h1 h2 (h3.congr same1.symm))⟩
   | some (true, free, k), hr1 =>
     obtain ⟨rfl, hfn, hftf, inv1, same1, hslots, htree1⟩ := hr1
     simp only
@@ -276,12 +277,13 @@ theorem reserveOrSteal_spec (ok : CfgOk c) (inv : UpperInv0 c H m) (i order cls 
     rintro lr m2 hlr
     cases lr with
     | error e =>
-      obtain ⟨rfl, rfl⟩ := hlr
+      obtain ⟨rfl, rfl, hno⟩ := hlr
       simp only [if_true]
       apply Runs.bind (tunreserve_spec ok inv1 i free k ⟨0, true, k⟩ htree1 rfl (Or.inr rfl) (Nat.le_refl _) (by simp))
       rintro _ m3 ⟨inv3, same3, _⟩
       apply Runs.pure
-      refine ⟨(inv3.congrP _ ?_).congrR _ ?_, rfl, same1.trans same3⟩
+      refine ⟨(inv3.congrP _ ?_).congrR _ ?_, ⟨rfl, same1.trans same3⟩,
+        fun _ _ => Or.inr (fun f h1 h2 h3 => hno rfl f h1 h2 (h3.congr same1.symm))⟩
       · intro j
         by_cases e : j = i
         · subst e; simp
@@ -313,7 +315,7 @@ theorem reserveOrSteal_spec (ok : CfgOk c) (inv : UpperInv0 c H m) (i order cls 
       | none, hold =>
         simp only
         apply Runs.pure
-        refine ⟨(hold.congrP _ ?_).congrR _ ?_, hcls, hal, hallowed.congr same1, hfx, heff⟩
+        refine ⟨(hold.congrP _ ?_).congrR _ ?_, ⟨hcls, hal, hallowed.congr same1, hfx, heff⟩, fun e h => by cases h⟩
         · intro j
           by_cases e : j = i
           · subst e; simp
@@ -329,8 +331,8 @@ theorem reserveOrSteal_spec (ok : CfgOk c) (inv : UpperInv0 c H m) (i order cls 
         apply Runs.bind (tunreserve_spec ok inv3 (o.row / c.g.treeRows) o.free k to hto1' hto2 (Or.inr rfl) hto3 (by simp))
         rintro _ m4 ⟨inv4, same4, _⟩
         apply Runs.pure
-        refine ⟨(inv4.congrP _ ?_).congrR _ ?_, hcls, hal, hallowed.congr same1, hfx,
-          AllocEffect.of_post same1 post (same3.trans same4)⟩
+        refine ⟨(inv4.congrP _ ?_).congrR _ ?_, ⟨hcls, hal, hallowed.congr same1, hfx,
+          AllocEffect.of_post same1 post (same3.trans same4)⟩, fun e h => by cases h⟩
         · intro j
           by_cases e1 : j = o.row / c.geom.treeRows
           · subst e1; simp [gset, hone]
@@ -344,6 +346,11 @@ theorem reserveOrSteal_spec (ok : CfgOk c) (inv : UpperInv0 c H m) (i order cls 
             rcases h1 with ⟨h1, h3⟩ | h1
             · rcases h1 with h1 | h1; exact h1.elim; exact h3 h1
             · exact h2 h1
+
+theorem reserveOrSteal_spec (ok : CfgOk c) (inv : UpperInv0 c H m) (i order cls loc : Nat) (hi : i < c.ntrees)
+    (hcls : cls < 8) (hto : order ≤ c.geom.treeOrder) (rng : Nat × Nat) (hr : c.slotRange cls = some rng) (hpos : 0 < rng.2) :
+    Runs m (reserveOrSteal c i order cls loc) (fun r m' => UpperInv0 c H m' ∧ GetOutcome c m order none r m') :=
+  (reserveOrSteal_spec' ok inv i order cls loc hi hcls hto rng hr hpos).mono (fun _ _ h => ⟨h.1, h.2.1⟩)
 
 end
 end LLFree
